@@ -170,3 +170,34 @@ Theorem rejected_ops_change_nothing :
   (forall cur ref p d, nonempty d = true -> generate cur ref p false d = (d, OExit1)).
 Proof. split; [exact update_not_ok_unchanged | exact generate_noforce_l]. Qed.
 Print Assumptions rejected_ops_change_nothing.
+
+(* ---- code-level tie (docs/py2coq.md): the BODIES of IndexMetadata.get_canonical_pool / register_canonical_pool
+        (index.py) and MetaVersion.is_valid_mpg_version / is_valid (version.py), translated from /repo's current source
+        by harness/translate/py2coq.py into coq/Gen/Py_index.v / Py_version.v on every run, are extensionally equal to
+        the model functions: first-match look-up, ValueError when registered twice, `max + 1 | 1` numbering, the file
+        name and the appended entry; the short-circuit order of is_valid with `that` parsed before `minimal`. ---- *)
+From MoPep Require Gen.Py_index Gen.Py_version.
+From MoPep Require Import Proofs.Py2CoqIndexProofs.
+
+Theorem code_index_functions_translated :
+  Py_index.py_get_canonical_pool_untranslated = false /\
+  Py_index.py_register_canonical_pool_untranslated = false /\
+  Py_version.py_is_valid_mpg_version_untranslated = false /\
+  Py_version.py_is_valid_untranslated = false.
+Proof. vm_compute. repeat split. Qed.
+Print Assumptions code_index_functions_translated.
+
+Theorem code_get_canonical_pool_is_model : forall m cp,
+  Py_index.py_get_canonical_pool m cp = get_pool cp (m_pools m).
+Proof. exact code_get_canonical_pool_is_model_l. Qed.
+Print Assumptions code_get_canonical_pool_is_model.
+
+Theorem code_register_canonical_pool_is_model : forall m cp,
+  Py_index.py_register_canonical_pool m cp = register m cp.
+Proof. exact code_register_canonical_pool_is_model_l. Qed.
+Print Assumptions code_register_canonical_pool_is_model.
+
+Theorem code_is_valid_is_model : forall cur rec,
+  Py_version.py_is_valid cur rec = is_valid cur rec.
+Proof. exact code_is_valid_is_model_l. Qed.
+Print Assumptions code_is_valid_is_model.
